@@ -182,7 +182,12 @@ pub fn apply(base: &Base, ops: &[Value]) -> Vec<u8> {
         match vs(&op["op"]) {
             "flip" => {
                 if at < bytes.len() {
-                    bytes[at] = vs(&op["ch"]).as_bytes()[0];
+                    // "x80": the byte with its high bit set (a lone continuation / lead byte: not UTF-8); "xFF": 0xFF
+                    bytes[at] = match vs(&op["ch"]) {
+                        "x80" => bytes[at] | 0x80,
+                        "xFF" => 0xFF,
+                        c => c.as_bytes()[0],
+                    };
                 }
             }
             _ => bytes.truncate(at),
